@@ -5,6 +5,7 @@ from . import cli, grounded, accept, provenance
 def run(ctx):
     from . import lazyvars as _lazyvars
     _lazyvars.rule_lazy_variable_counter(ctx)
+    _lazyvars.rule_range_offset(ctx)
     from . import layout as _layout
     _layout.rule_variable_layout(ctx)
     _layout.rule_clause_templates(ctx)  # the clauses each encoder mode issues are the reference encoding's
